@@ -1618,7 +1618,12 @@ class ConfigInformation:
 
             # Creates an object (or a config)
             if as_instance:
+                # ... calls the parameter-less initialization right away (as
+                # instance() does): with cyclic references, an object can be
+                # used by the __post_init__ of another one before its own
+                # fields are set
                 o = cls.XPMValue.__new__(cls.XPMValue)
+                o.__init__()
             else:
                 o = cls.XPMConfig.__new__(cls.XPMConfig)
             assert definition["id"] not in objects, "Duplicate id %s" % definition["id"]
@@ -1631,9 +1636,6 @@ class ConfigInformation:
 
             # If instance...
             if as_instance:
-                # ... calls the parameter-less initialization
-                o.__init__()
-
                 # ... sets potentially useful properties
                 if "typename" in definition:
                     o.__xpmtypename__ = definition["typename"]
